@@ -200,7 +200,7 @@ def gen_schema(name="utest", xml_path=None, prefix=None, ns=None, extra_args=Non
         xml_path = os.path.join(REPO, rel)
     extra_args = extra_args or []
     exe = f8c()
-    key = sha(os.path.basename(exe), read(xml_path), prefix, ns, " ".join(extra_args))
+    key = sha(os.path.basename(exe), read(xml_path), prefix, ns, " ".join(extra_args), "v2")
     d = os.path.join(CACHE, "gen", "%s-%s" % (name, key))
     done = os.path.join(d, ".done")
     if not os.path.exists(done):
@@ -208,7 +208,11 @@ def gen_schema(name="utest", xml_path=None, prefix=None, ns=None, extra_args=Non
             if not os.path.exists(done):
                 shutil.rmtree(d, ignore_errors=True)
                 os.makedirs(d)
-                run([exe, "-sVp", prefix, "-n", ns, xml_path] + extra_args, cwd=d, timeout=600)
+                # -s (second pass only = no component pre-compilation) is what utests/Makefile.am
+                # uses for FIX42UTEST, which has no components; schemas with components (FIX44)
+                # need the precompiler or their component-only groups come out empty
+                has_comp = b"<component" in read(xml_path)
+                run([exe, "-Vp" if has_comp else "-sVp", prefix, "-n", ns, xml_path] + extra_args, cwd=d, timeout=600)
                 open(done, "w").write("ok")
     cpps = sorted(glob.glob(os.path.join(d, "*.cpp")))
     return d, cpps, prefix, ns
